@@ -189,12 +189,12 @@ theorem RG_alignLoop {s : SeqState} (hi : SeqInv s) (tf : Int) (l : List (ChName
     unfold alignLoop
     simp only
     split
+    · exact RG_fail hi _
     · split
-      · exact RG_fail hi _
       · split
         · exact RG_fail hi _
         · exact RG_bind (RG_delayCore hi _ _ _) (fun s1 hi1 _ => ih hi1)
-    · exact ih hi
+      · exact ih hi
 
 theorem validateAndAdjust_ok {c : ChanState} {p : PulseIn} {r : Option Rat} {pr : PulseRec}
     (hc : 0 < c.cfg.clock) (h : validateAndAdjust c p r = .ok pr) :
